@@ -86,7 +86,7 @@ type c03hCase struct {
 }
 
 func c03hGen(t *rapid.T) c03hCase {
-	c := c03hCase{Route: rapid.SampledFrom(c03rRoutes).Draw(t, "route")}
+	c := c03hCase{Route: rapid.SampledFrom(c03hRoutes).Draw(t, "route")}
 	c.Steps = rapid.SliceOfN(rapid.Custom(func(t *rapid.T) c03hStep {
 		return c03hStep{
 			K: rapid.SampledFrom([]string{"restart", "new", "new", "new", "legacy", "legacy", "link", "delete", "restart", "restart"}).Draw(t, "k"),
@@ -95,6 +95,9 @@ func c03hGen(t *rapid.T) c03hCase {
 	}), 3, 14).Draw(t, "steps")
 	return c
 }
+
+// the three fs routes plus the external secret-store route (stub server of the harness)
+var c03hRoutes = []string{"unset-nonstrict", "fs-nonstrict", "fs-strict", "external"}
 
 type c03hKey struct {
 	pub     *ecdsa.PublicKey
@@ -106,6 +109,7 @@ type c03hWorld struct {
 	se      storage.Engine
 	datadir string
 	route   string
+	b       *c03Backend
 	client  *Crypto
 	model   map[string]string   // kid -> key name (exactly the key_reference table)
 	keys    map[string]*c03hKey // key name -> key
@@ -292,7 +296,8 @@ func c03hRun(x *h.Ctx, c c03hCase) {
 	x.Cleanup(func() { _ = se.Shutdown() })
 	w := &c03hWorld{x: x, se: se, datadir: filepath.Join(root, "data"), route: c.Route, model: map[string]string{}, keys: map[string]*c03hKey{}}
 	x.NoErr(os.MkdirAll(w.datadir, 0o700), "mkdir")
-	w.client = c03hEngine(x, se, w.datadir, c.Route)
+	w.b = c03NewBackend(x, c.Route, w.datadir)
+	w.client = w.b.engine(x, se)
 	x.Class("route:" + c.Route)
 	ctx := audit.TestContext()
 	restarts, created := 0, 0
@@ -304,7 +309,12 @@ func c03hRun(x *h.Ctx, c c03hCase) {
 			kid := fmt.Sprintf("did:web:c03.example:iam:subject-%d#key-%d", st.A%3, w.seq)
 			ref, pub, err := w.client.New(ctx, StringNamingFunc(kid))
 			x.NoErr(err, "New")
-			w.keys[ref.KeyName] = &c03hKey{pub: pub.(*ecdsa.PublicKey), present: true}
+			ecPub, isPub := pub.(*ecdsa.PublicKey)
+			if !isPub {
+				x.Violate("keystore:New:returned-private-key", "%s: route %s: New handed a %T to its caller as public key", phase, w.route, pub)
+				return
+			}
+			w.keys[ref.KeyName] = &c03hKey{pub: ecPub, present: true}
 			w.model[kid] = ref.KeyName
 			created++
 		case "legacy":
@@ -312,9 +322,14 @@ func c03hRun(x *h.Ctx, c c03hCase) {
 			// kid = key name at the next start
 			w.seq++
 			name := []string{fmt.Sprintf("legacy-key-%d", w.seq), fmt.Sprintf("did:nuts:C03Legacy%d#key-%d", st.A, w.seq)}[st.A%2]
+			if w.b.stub != nil {
+				// the external client escapes a name twice on lookup but lists it as stored: names with reserved characters
+				// are not addressable symmetrically there (a property of that deprecated back-end, not judged here)
+				name = fmt.Sprintf("legacy-key-%d", w.seq)
+			}
 			k, err := ecdsa.GenerateKey(elliptic.P256(), rand.Reader)
 			x.NoErr(err, "keygen")
-			x.NoErr(os.WriteFile(filepath.Join(w.datadir, "crypto", name+"_private.pem"), c03rPEM(k), 0o600), "legacy key file")
+			w.b.put(x, name, c03rPEM(k))
 			w.keys[name] = &c03hKey{pub: &k.PublicKey, present: true}
 			x.Class("history:legacy-file")
 		case "link":
@@ -346,7 +361,7 @@ func c03hRun(x *h.Ctx, c c03hCase) {
 			x.Class("history:deleted")
 		case "restart":
 			// node start-up order: Configure, Migrate (cmd/root.go); the engine has no Start/Shutdown of its own
-			w.client = c03hEngine(x, se, w.datadir, c.Route)
+			w.client = w.b.engine(x, se)
 			restarts++
 			// Migrate adopts back-end keys that no key_reference names, under kid = key name
 			for _, name := range w.sortedNames(true) {
